@@ -1,0 +1,43 @@
+//go:build verif
+
+package p2p
+
+import (
+	"github.com/canopy-network/canopy/lib"
+)
+
+// Verification hooks (build tag `verif` only; add-only, nothing here is compiled into normal builds).
+
+const (
+	VerifMaxDataChunkSize = int(maxDataChunkSize)
+	VerifMaxMessageSize   = int(maxMessageSize)
+)
+
+// VerifSplit exposes the packetisation of Send()
+func VerifSplit(buf []byte, lim int) [][]byte { return split(buf, lim) }
+
+// VerifStream is a receive-side stream (the per-topic message assembler of a MultiConn) on its own
+type VerifStream struct {
+	s     *Stream
+	inbox chan *lib.MessageAndMetadata
+}
+
+func VerifNewStream(topic lib.Topic, inboxCap int) *VerifStream {
+	in := make(chan *lib.MessageAndMetadata, inboxCap)
+	return &VerifStream{inbox: in, s: &Stream{topic: topic, msgAssembler: make([]byte, 0), inbox: in, logger: lib.NewNullLogger()}}
+}
+
+// HandlePacket feeds one packet to the real Stream.handlePacket and returns the messages that reached the inbox
+func (v *VerifStream) HandlePacket(topic lib.Topic, eof bool, bz []byte) (delivered [][]byte, slash int32, err lib.ErrorI) {
+	slash, err = v.s.handlePacket(&lib.PeerInfo{}, &Packet{StreamId: topic, Eof: eof, Bytes: bz}, nil)
+	for {
+		select {
+		case m := <-v.inbox:
+			delivered = append(delivered, m.Message)
+		default:
+			return
+		}
+	}
+}
+
+func (v *VerifStream) AssemblerLen() int { return len(v.s.msgAssembler) }
